@@ -39,6 +39,21 @@ type respSpec struct {
 	FailAfter   int        `json:"fail_after"` // -1: the body ends with EOF
 	ReadErr     string     `json:"read_err"`
 	EndWithData bool       `json:"end_with_data"`
+	// Response.ContentLength as net/http would report it: "" / "unknown" = -1 (chunked or
+	// close-delimited), "exact" = the body length, "head:<n>" = n although the body is empty
+	// (the answer to a HEAD request carries the Content-Length of the entity it does not send)
+	Length string `json:"length,omitempty"`
+}
+
+func (rs *respSpec) contentLength() int64 {
+	switch {
+	case rs.Length == "exact":
+		return int64(len(rs.Body))
+	case strings.HasPrefix(rs.Length, "head:"):
+		n, _ := strconv.ParseInt(rs.Length[5:], 10, 64)
+		return n
+	}
+	return -1
 }
 
 type hitCase struct {
@@ -218,7 +233,7 @@ func (ft *fakeTransport) RoundTrip(req *http.Request) (*http.Response, error) {
 	ft.bodies = append(ft.bodies, fb)
 	return &http.Response{
 		Status: rs.StatusText, StatusCode: rs.Status, Proto: "HTTP/1.1", ProtoMajor: 1, ProtoMinor: 1,
-		Header: mkHeader(rs.Header), Body: fb, ContentLength: -1, Request: req,
+		Header: mkHeader(rs.Header), Body: fb, ContentLength: rs.contentLength(), Request: req,
 	}, nil
 }
 
@@ -615,7 +630,7 @@ func oracleSeq(s *kit.Summary, sofar []*hitCase, c *hitCase, o *hitOut) {
 
 // ---------- generators ----------
 
-var methods = []string{"GET", "GET", "POST", "PUT", "DELETE", "HEAD", "PATCH", "OPTIONS", "get", "M-SEARCH", "Post"}
+var methods = []string{"GET", "GET", "POST", "PUT", "DELETE", "HEAD", "HEAD", "PATCH", "OPTIONS", "get", "M-SEARCH", "Post"}
 var hosts = []string{"example.com", "a.b", "127.0.0.1", "[::1]", "h.test", "UPPER.example"}
 var hdrKeys = []string{"Host", "host", "HOST", "Content-Type", "content-type", "X-Custom", "x-custom", "X-CUSTOM", "Accept",
 	"X-Vegeta-Seq", "x-vegeta-seq", "X-Vegeta-Attack", "x-vegeta-attack", "User-Agent", "Cookie", "a", "X_Under", "Accept-Encoding"}
@@ -736,7 +751,34 @@ func genResp(r *kit.Rng, redirect bool, hop int) respSpec {
 	rs.FailAfter = -1
 	rs.ReadErr = "read tcp: connection reset by peer " + randWord(r, 3)
 	rs.EndWithData = r.Chance(0.3)
+	if r.Chance(0.55) {
+		rs.Length = "exact"
+	}
 	return rs
+}
+
+// headAnswer turns a response into what net/http hands out for a HEAD request: the declared
+// Content-Length of the entity, and no body.
+func headAnswer(r *kit.Rng, rs *respSpec, maxBody int64) {
+	n := int64(1 + r.Pick(5000))
+	switch r.Pick(8) {
+	case 0:
+		n = 1
+	case 1:
+		n = 8 << 20
+	case 2:
+		n = 8<<20 + 1
+	case 3:
+		if maxBody > 0 {
+			n = maxBody + int64(r.Pick(3)) - 1
+			if n < 1 {
+				n = 1
+			}
+		}
+	}
+	rs.Body = nil
+	rs.FailAfter = -1
+	rs.Length = "head:" + strconv.FormatInt(n, 10)
 }
 
 func genCase(r *kit.Rng) *hitCase {
@@ -848,6 +890,15 @@ func genCase(r *kit.Rng) *hitCase {
 	default:
 		c.MaxBody = []int64{-2, 1 << 40, 1<<63 - 1, 1}[r.Pick(4)]
 	}
+	if c.Method == "HEAD" && r.Chance(0.85) {
+		// net/http: the answer to HEAD declares the entity's length and has no body
+		if c.Final != nil {
+			headAnswer(r, c.Final, c.MaxBody)
+		}
+		for i := range c.Hops {
+			headAnswer(r, &c.Hops[i], c.MaxBody)
+		}
+	}
 	for i := r.Pick(6); i > 0; i-- {
 		c.Chunks = append(c.Chunks, []int{0, 1, 2, 7, 100, 512, 4096, 20000}[r.Pick(8)])
 	}
@@ -873,6 +924,14 @@ func classify(s *kit.Summary, c *hitCase, o *hitOut) {
 		}
 	default:
 		s.Count("branch:completed")
+		switch l := o.lastSpec.Length; {
+		case strings.HasPrefix(l, "head:"):
+			s.Count("length:head_declared_no_body")
+		case l == "exact":
+			s.Count("length:exact")
+		default:
+			s.Count("length:unknown")
+		}
 		if o.res != nil {
 			s.Count(fmt.Sprintf("status:%dxx", o.res.Code/100))
 		}
